@@ -1,7 +1,6 @@
 (* Model of src/stdlib/format_int.rs (format_int, format_radix) and src/stdlib/parse_int.rs
    (parse_int + core's i64::from_str_radix, char::from_digit, char::to_digit).  Definitions only.
-   Integers are Z with explicit i64 range checks; the harness is built with overflow-checks on, so
-   `-x` on i64::MIN is a panic (RPanic). *)
+   Integers are Z with explicit i64 range checks. *)
 From Coq Require Import List NArith ZArith Bool.
 From VRL Require Import Base.Bytes Base.Value Model.ConvRes.
 Import ListNotations.
@@ -37,19 +36,14 @@ Fixpoint digits_loop (fuel : nat) (radix x : Z) (acc : bytes) : option bytes :=
       if x' =? 0 then Some acc' else digits_loop f radix x' acc'
   end.
 
-(* format_radix(x: i64, radix: u32) -> String ; fuel 64 is enough for every u64 and radix >= 2 *)
+(* format_radix(x: i64, radix: u32) -> String ; fuel 64 is enough for every u64 and radix >= 2.
+   `(x.unsigned_abs(), x < 0)`: the magnitude is taken in u64, so i64::MIN is an ordinary input (2^63). *)
 Definition format_radix (x radix : Z) : res bytes :=
-  if x <? 0 then
-    (* (-x as u64): the negation is done in i64 *)
-    if x =? i64_min then RPanic
-    else match digits_loop 64 radix (- x) [] with
-         | Some s => ROk (45%N :: s)
-         | None => RFuel
-         end
-  else match digits_loop 64 radix x [] with
-       | Some s => ROk s
-       | None => RFuel
-       end.
+  let negative := x <? 0 in
+  match digits_loop 64 radix (Z.abs x) [] with
+  | Some s => ROk (if negative then 45%N :: s else s)
+  | None => RFuel
+  end.
 
 (* format_int(value, base) *)
 Definition format_int (v0 base : value) : res value :=
